@@ -571,6 +571,419 @@ example : (runConv {} [⟨true, true, true, wB⟩, ⟨false, true, true, wA⟩])
     [[.add "s1" ⟨"", ["r1.x", "r2.x"]⟩], [.add "s1" ⟨"", ["r1.x"]⟩, .remove "s1" ⟨"", ["r1.x", "r2.x"]⟩]] := by
   decide +kernel
 
+/-! ## a repair, checked on the model
+
+Not the code that exists: `Fix.*` models a small change of `pkg/haproxy/types/global.go`
+(`Acquire` registers an already committed storage that is handed out again, `Clear()` keeps the
+storages object and turns its items into removal candidates, `shrink` keeps the additions of a
+full sync) for which the FULL-STRENGTH statement is provable — without any contract on the
+converter. It is here to show that findings 1 and 2 have a small repair inside `AcmeStorages`
+and to make the switch of the model trivial once the code is changed. -/
+
+namespace Fix
+
+/-- proposed `Acquire`: an already committed storage that is handed out again is registered in
+`itemsAdd`, and a copy of its former state in `itemsDel` (so `shrink` cancels it when nothing
+changed and `AcmeUpdate` sees the difference otherwise) -/
+def acquire (s : Storages) (n chain : String) (doms : List String) : Storages :=
+  match find s.items n with
+  | none =>
+    let c : Cert := { chain := assignChain "" chain, doms := addDoms [] doms }
+    { s with items := insert s.items n c, add := insert s.add n c }
+  | some cur =>
+    let c : Cert := { chain := assignChain cur.chain chain, doms := addDoms cur.doms doms }
+    if (find s.add n).isSome then { s with items := insert s.items n c, add := insert s.add n c }
+    else { items := insert s.items n c, add := insert s.add n c,
+           del := if (find s.del n).isSome then s.del else insert s.del n cur }
+
+/-- proposed `AcmeStorages.Clear()` called by `config.Clear()` on the carried-over object: all the
+current storages become removal candidates -/
+def clear (s : Storages) : Storages :=
+  { items := [], add := [], del := s.items ++ s.del.filter (fun e => (find s.items e.1).isNone) }
+
+/-- proposed `shrink`: after a `Clear()` (full sync) equal pairs are only dropped from the removal
+side, so that a full sync still enqueues every storage -/
+def shrink (full : Bool) (s : Storages) : Storages :=
+  let same (n : String) : Bool := (find s.add n).isSome && find s.add n == find s.del n
+  { s with add := if full then s.add else s.add.filter (fun e => !same e.1),
+           del := s.del.filter (fun e => !same e.1) }
+
+/-- proposed `AcmeUpdate`: removals first -/
+def acmeUpdate (full leader acct : Bool) (s : Storages) : Storages × List QOp :=
+  if leader then
+    if !acct then (s, [])
+    else
+      let s' := shrink full s
+      (s', s'.add.map (fun e => QOp.add e.1 e.2) ++ s'.del.map (fun e => QOp.remove e.1 e.2))
+  else (shrink full s, [])
+
+def applyAcqs (s : Storages) (as : List Acq) : Storages :=
+  as.foldl (fun s a => acquire s a.name a.chain a.doms) s
+
+def preUpdate (s : Storages) (c : Cycle) : Storages :=
+  applyAcqs (if c.full then clear s else removeAll s c.dirty) c.acqs
+
+def cycle (s : Storages) (c : Cycle) : Storages × List QOp :=
+  let r := acmeUpdate c.full c.leader c.acct (preUpdate s c)
+  (commit r.1, r.2)
+
+def runCycles (s : Storages) : List Cycle → Storages × List (List QOp)
+  | [] => (s, [])
+  | c :: cs =>
+    let r := cycle s c
+    let rest := runCycles r.1 cs
+    (rest.1, r.2 :: rest.2)
+
+/-- invariant of the acquisitions relative to the state `s0` they start from and the storages `P`
+before the cycle -/
+structure Inv (s0 : Storages) (P : SMap) (s : Storages) : Prop where
+  keep : ∀ k, find s.add k = none → find s.items k = find s0.items k ∧ find s.del k = find s0.del k
+  same : ∀ k c, find s.add k = some c → find s.items k = some c
+  old  : ∀ k, find s.add k ≠ none → find s.del k = find P k
+  uadd : Uniq s.add
+  udel : Uniq s.del
+
+/-- what the start state must satisfy w.r.t. `P` -/
+structure Start (s0 : Storages) (P : SMap) : Prop where
+  h0 : ∀ k, find s0.items k = none → find s0.del k = find P k
+  h1 : ∀ k c, find s0.items k = some c → find s0.del k = none ∧ find P k = some c
+
+theorem acquire_inv {s0 s : Storages} {P : SMap} (hs : Start s0 P) (h : Inv s0 P s)
+    (n ch : String) (ds : List String) : Inv s0 P (acquire s n ch ds) := by
+  unfold acquire
+  split
+  · rename_i hnone
+    have hadd : find s.add n = none := by
+      cases hx : find s.add n with
+      | none => rfl
+      | some y => have := h.same n y hx; rw [hnone] at this; cases this
+    have hk := h.keep n hadd
+    have hdel : find s.del n = find P n := by rw [hk.2]; exact hs.h0 n (by rw [← hk.1]; exact hnone)
+    refine ⟨?_, ?_, ?_, uniq_insert h.uadd _ _, h.udel⟩
+    · intro k hk
+      simp only [find_insert] at hk ⊢
+      by_cases e : k = n
+      · simp [e] at hk
+      · simp only [e, if_false] at hk ⊢; exact h.keep k hk
+    · intro k c hk
+      simp only [find_insert] at hk ⊢
+      by_cases e : k = n
+      · simp only [e, if_true] at hk ⊢; exact hk
+      · simp only [e, if_false] at hk ⊢; exact h.same k c hk
+    · intro k hk
+      simp only [find_insert] at hk
+      by_cases e : k = n
+      · subst e; exact hdel
+      · simp only [e, if_false] at hk; exact h.old k hk
+  · rename_i cur hcur
+    cases hx : find s.add n with
+    | some y =>
+      simp only [Option.isSome_some, if_true]
+      refine ⟨?_, ?_, ?_, uniq_insert h.uadd _ _, h.udel⟩
+      · intro k hk
+        simp only [find_insert] at hk ⊢
+        by_cases e : k = n
+        · simp [e] at hk
+        · simp only [e, if_false] at hk ⊢; exact h.keep k hk
+      · intro k c hk
+        simp only [find_insert] at hk ⊢
+        by_cases e : k = n
+        · simp only [e, if_true] at hk ⊢; exact hk
+        · simp only [e, if_false] at hk ⊢; exact h.same k c hk
+      · intro k hk
+        simp only [find_insert] at hk
+        by_cases e : k = n
+        · subst e; exact h.old k (by rw [hx]; simp)
+        · simp only [e, if_false] at hk; exact h.old k hk
+    | none =>
+      have hk := h.keep n hx
+      have h1 := hs.h1 n cur (by rw [← hk.1]; exact hcur)
+      have hdn : find s.del n = none := by rw [hk.2]; exact h1.1
+      simp only [Option.isSome_none, Bool.false_eq_true, if_false, hdn]
+      refine ⟨?_, ?_, ?_, uniq_insert h.uadd _ _, uniq_insert h.udel _ _⟩
+      · intro k hk
+        simp only [find_insert] at hk ⊢
+        by_cases e : k = n
+        · simp [e] at hk
+        · simp only [e, if_false] at hk ⊢; exact h.keep k hk
+      · intro k c hk
+        simp only [find_insert] at hk ⊢
+        by_cases e : k = n
+        · simp only [e, if_true] at hk ⊢; exact hk
+        · simp only [e, if_false] at hk ⊢; exact h.same k c hk
+      · intro k hk
+        simp only [find_insert] at hk ⊢
+        by_cases e : k = n
+        · subst e; simp only [if_true]; exact h1.2.symm
+        · simp only [e, if_false] at hk ⊢; exact h.old k hk
+
+theorem applyAcqs_inv {s0 : Storages} {P : SMap} (hs : Start s0 P) (as : List Acq) {s : Storages}
+    (h : Inv s0 P s) : Inv s0 P (applyAcqs s as) := by
+  unfold applyAcqs
+  induction as generalizing s with
+  | nil => exact h
+  | cons a t ih => simp only [List.foldl_cons]; exact ih (acquire_inv hs h _ _ _)
+
+
+theorem find_append (a b : SMap) (k : String) :
+    find (a ++ b) k = match find a k with | some c => some c | none => find b k := by
+  induction a with
+  | nil => simp [find]
+  | cons e t ih =>
+    obtain ⟨x, v⟩ := e
+    simp only [List.cons_append, find]
+    by_cases h : x = k
+    · simp [h]
+    · simp [h, ih]
+
+theorem shrink_add_partial (s : Storages) (k : String) (c : Cert) :
+    find (shrink false s).add k = some c ↔ find s.add k = some c ∧ find s.del k ≠ some c :=
+  HapVerif.C17.shrink_add s k c
+
+theorem shrink_del (full : Bool) (s : Storages) (k : String) (c : Cert) :
+    find (shrink full s).del k = some c ↔ find s.del k = some c ∧ find s.add k ≠ some c :=
+  HapVerif.C17.shrink_del s k c
+
+theorem shrink_add_full (s : Storages) : (shrink true s).add = s.add := rfl
+
+theorem shrink_uniq_add (full : Bool) {s : Storages} (h : Uniq s.add) : Uniq (shrink full s).add := by
+  unfold shrink; cases full
+  · exact uniq_filter _ h
+  · exact h
+theorem shrink_uniq_del (full : Bool) {s : Storages} (h : Uniq s.del) : Uniq (shrink full s).del := uniq_filter _ h
+
+/-- start state of a partial cycle -/
+theorem start_partial (s : Storages) (dirty : List String) (hdel : s.del = []) :
+    Start (removeAll s dirty) s.items := by
+  constructor
+  · intro k hk
+    rw [removeAll_items] at hk; rw [removeAll_del s dirty k hdel]
+    by_cases hd : k ∈ dirty
+    · simp [hd]
+    · simp only [hd, if_false] at hk ⊢; exact hk.symm
+  · intro k c hk
+    rw [removeAll_items] at hk; rw [removeAll_del s dirty k hdel]
+    by_cases hd : k ∈ dirty
+    · simp [hd] at hk
+    · simp only [hd, if_false] at hk ⊢; exact ⟨trivial, hk⟩
+
+theorem clear_del (s : Storages) (hdel : s.del = []) : (clear s).del = s.items := by
+  unfold clear; simp [hdel]
+
+theorem start_full (s : Storages) (hdel : s.del = []) : Start (clear s) s.items := by
+  constructor
+  · intro k _; rw [clear_del s hdel]
+  · intro k c hk; simp [clear, find] at hk
+
+theorem inv_init (s0 : Storages) (P : SMap) (ha : s0.add = []) (hu : Uniq s0.del) : Inv s0 P s0 :=
+  ⟨fun _ _ => ⟨rfl, rfl⟩, fun k c h => by rw [ha] at h; simp [find] at h,
+   fun k h => by rw [ha] at h; simp [find] at h, by rw [ha]; exact uniq_nil, hu⟩
+
+theorem cycle_items (s : Storages) (c : Cycle) : (cycle s c).1.items = (preUpdate s c).items := by
+  unfold cycle acmeUpdate commit
+  split
+  · split <;> rfl
+  · rfl
+
+theorem cycle_committed (s : Storages) (c : Cycle) : (cycle s c).1.add = [] ∧ (cycle s c).1.del = [] := by
+  unfold cycle commit; exact ⟨rfl, rfl⟩
+
+theorem cycle_ops_leader (s : Storages) (c : Cycle) (hl : c.leader = true) (ha : c.acct = true) :
+    (cycle s c).2 = (shrink c.full (preUpdate s c)).add.map (fun e => QOp.add e.1 e.2) ++
+                    (shrink c.full (preUpdate s c)).del.map (fun e => QOp.remove e.1 e.2) := by
+  unfold cycle acmeUpdate; simp [hl, ha]
+
+/-- removals, for both kinds of cycle -/
+theorem removes_char {s0 s : Storages} {P : SMap} (_hs : Start s0 P) (inv : Inv s0 P s)
+    (h2 : ∀ k c, find s0.del k = some c → find P k = some c ∧ find s0.items k = none)
+    (h3 : ∀ k c, find P k = some c → find s0.items k = some c ∨ find s0.del k = some c)
+    (k : String) (x : Cert) :
+    (find s.del k = some x ∧ find s.add k ≠ some x) ↔ (find P k = some x ∧ find s.items k ≠ some x) := by
+  constructor
+  · rintro ⟨hd, ha⟩
+    cases hx : find s.add k with
+    | none =>
+      have hk := inv.keep k hx
+      rw [hk.2] at hd
+      have := h2 k x hd
+      exact ⟨this.1, by rw [hk.1, this.2]; simp⟩
+    | some y =>
+      have ho := inv.old k (by rw [hx]; simp)
+      rw [ho] at hd
+      refine ⟨hd, ?_⟩
+      rw [inv.same k y hx]
+      intro e; cases e; exact ha hx
+  · rintro ⟨hp, hn⟩
+    cases hx : find s.add k with
+    | none =>
+      have hk := inv.keep k hx
+      rcases h3 k x hp with h | h
+      · rw [hk.1] at hn; exact absurd h hn
+      · exact ⟨by rw [hk.2]; exact h, by simp⟩
+    | some y =>
+      have ho := inv.old k (by rw [hx]; simp)
+      refine ⟨by rw [ho]; exact hp, ?_⟩
+      intro e; cases e
+      exact hn (inv.same k x hx)
+
+theorem removeOne_uniq_items {s : Storages} (h : Uniq s.items) (n : String) : Uniq (removeOne s n).items := by
+  unfold removeOne; split
+  · exact uniq_erase h _
+  · exact h
+
+theorem removeAll_uniq_items {s : Storages} (h : Uniq s.items) (ns : List String) : Uniq (removeAll s ns).items := by
+  unfold removeAll
+  induction ns generalizing s with
+  | nil => exact h
+  | cons n t ih => simp only [List.foldl_cons]; exact ih (removeOne_uniq_items h n)
+
+theorem acquire_uniq_items {s : Storages} (h : Uniq s.items) (n ch : String) (ds : List String) :
+    Uniq (acquire s n ch ds).items := by
+  unfold acquire; split
+  · exact uniq_insert h _ _
+  · split <;> exact uniq_insert h _ _
+
+theorem applyAcqs_uniq_items (as : List Acq) {s : Storages} (h : Uniq s.items) : Uniq (applyAcqs s as).items := by
+  unfold applyAcqs
+  induction as generalizing s with
+  | nil => exact h
+  | cons a t ih => simp only [List.foldl_cons]; exact ih (acquire_uniq_items h _ _ _)
+
+theorem cycle_uniq_items (s : Storages) (c : Cycle) (hu : Uniq s.items) : Uniq (cycle s c).1.items := by
+  rw [cycle_items]; unfold preUpdate
+  apply applyAcqs_uniq_items
+  cases c.full
+  · exact removeAll_uniq_items hu _
+  · exact uniq_nil
+
+/-- **queue_follows for the repaired model**, one cycle, no converter contract: on the leader the
+queue gets a `Remove` for exactly the former items that are gone or changed — partial AND full
+sync — and an `Add` for exactly the new/changed storages (partial) or for every storage (full). -/
+theorem queue_follows_cycle (s : Storages) (c : Cycle) (hadd : s.add = []) (hdel : s.del = [])
+    (hu : Uniq s.items) (hl : c.leader = true) (ha : c.acct = true) :
+    (∀ n x, QOp.add n x ∈ (cycle s c).2 ↔
+        find (cycle s c).1.items n = some x ∧ (c.full = true ∨ find s.items n ≠ some x)) ∧
+    (∀ n x, QOp.remove n x ∈ (cycle s c).2 ↔
+        find s.items n = some x ∧ find (cycle s c).1.items n ≠ some x) := by
+  rw [cycle_ops_leader s c hl ha, cycle_items]
+  cases hf : c.full with
+  | false =>
+    have hs := start_partial s c.dirty hdel
+    have hu0 : Uniq (removeAll s c.dirty).del := removeAll_uniq_del (by rw [hdel]; exact uniq_nil) _
+    have inv : Inv (removeAll s c.dirty) s.items (preUpdate s c) := by
+      unfold preUpdate; simp only [hf, Bool.false_eq_true, if_false]
+      exact applyAcqs_inv hs _ (inv_init _ _ (by rw [removeAll_add, hadd]) hu0)
+    have h2 : ∀ k x, find (removeAll s c.dirty).del k = some x →
+        find s.items k = some x ∧ find (removeAll s c.dirty).items k = none := by
+      intro k x h
+      rw [removeAll_del s c.dirty k hdel] at h; rw [removeAll_items]
+      by_cases hd : k ∈ c.dirty
+      · simp only [hd, if_true] at h ⊢; exact ⟨h, trivial⟩
+      · simp [hd] at h
+    have h3 : ∀ k x, find s.items k = some x →
+        find (removeAll s c.dirty).items k = some x ∨ find (removeAll s c.dirty).del k = some x := by
+      intro k x h
+      rw [removeAll_del s c.dirty k hdel, removeAll_items]
+      by_cases hd : k ∈ c.dirty
+      · simp [hd, h]
+      · simp [hd, h]
+    constructor
+    · intro n x
+      rw [mem_ops_add, mem_iff_find (shrink_uniq_add _ inv.uadd), shrink_add_partial]
+      simp only [Bool.false_eq_true, false_or]
+      constructor
+      · rintro ⟨h1, hd⟩
+        refine ⟨inv.same n x h1, ?_⟩
+        rw [← inv.old n (by rw [h1]; simp)]; exact hd
+      · rintro ⟨h1, hp⟩
+        cases hx : find (preUpdate s c).add n with
+        | none =>
+          have hk := inv.keep n hx
+          rw [hk.1] at h1
+          exact absurd (hs.h1 n x h1).2 hp
+        | some y =>
+          have := inv.same n y hx
+          rw [h1] at this; cases this
+          exact ⟨rfl, by rw [inv.old n (by rw [hx]; simp)]; exact hp⟩
+    · intro n x
+      rw [mem_ops_remove, mem_iff_find (shrink_uniq_del _ inv.udel), shrink_del]
+      exact removes_char hs inv h2 h3 n x
+  | true =>
+    have hs := start_full s hdel
+    have hu0 : Uniq (clear s).del := by rw [clear_del s hdel]; exact hu
+    have inv : Inv (clear s) s.items (preUpdate s c) := by
+      unfold preUpdate; simp only [hf, if_true]
+      exact applyAcqs_inv hs _ (inv_init _ _ rfl hu0)
+    have h2 : ∀ k x, find (clear s).del k = some x → find s.items k = some x ∧ find (clear s).items k = none := by
+      intro k x h; rw [clear_del s hdel] at h; exact ⟨h, rfl⟩
+    have h3 : ∀ k x, find s.items k = some x →
+        find (clear s).items k = some x ∨ find (clear s).del k = some x := by
+      intro k x h; right; rw [clear_del s hdel]; exact h
+    constructor
+    · intro n x
+      rw [mem_ops_add, mem_iff_find (shrink_uniq_add _ inv.uadd), shrink_add_full]
+      simp only [true_or, and_true]
+      constructor
+      · exact inv.same n x
+      · intro h1
+        cases hx : find (preUpdate s c).add n with
+        | none =>
+          have hk := inv.keep n hx
+          rw [hk.1] at h1; simp [clear, find] at h1
+        | some y =>
+          have := inv.same n y hx
+          rw [h1] at this; cases this; rfl
+    · intro n x
+      rw [mem_ops_remove, mem_iff_find (shrink_uniq_del _ inv.udel), shrink_del]
+      exact removes_char hs inv h2 h3 n x
+
+/-- Spec of one cycle at full strength -/
+def SpecFull (prev new : SMap) (c : Cycle) (o : List QOp) : Prop :=
+  if c.leader = true ∧ c.acct = true then
+    (∀ n x, QOp.add n x ∈ o ↔ find new n = some x ∧ (c.full = true ∨ find prev n ≠ some x)) ∧
+    (∀ n x, QOp.remove n x ∈ o ↔ find prev n = some x ∧ find new n ≠ some x)
+  else o = []
+
+def FollowsFull : Storages → List Cycle → List (List QOp) → Prop
+  | _, [], os => os = []
+  | _, _ :: _, [] => False
+  | s, c :: cs, o :: os => SpecFull s.items (cycle s c).1.items c o ∧ FollowsFull (cycle s c).1 cs os
+
+theorem not_leader_or_account (s : Storages) (c : Cycle) (h : ¬ (c.leader = true ∧ c.acct = true)) :
+    (cycle s c).2 = [] := by
+  unfold cycle acmeUpdate
+  cases hl : c.leader <;> cases ha : c.acct <;> simp_all
+
+/-- **queue_follows, full strength, for the repaired model**: all histories of partial and full
+cycles, no contract on what the converter removes or acquires -/
+theorem queue_follows_repaired (cs : List Cycle) :
+    ∀ (s : Storages), s.add = [] → s.del = [] → Uniq s.items → FollowsFull s cs (runCycles s cs).2 := by
+  induction cs with
+  | nil => intro s _ _ _; rfl
+  | cons c cs ih =>
+    intro s hadd hdel hu
+    simp only [runCycles, FollowsFull]
+    refine ⟨?_, ih _ (cycle_committed s c).1 (cycle_committed s c).2 (cycle_uniq_items s c hu)⟩
+    unfold SpecFull
+    by_cases hla : c.leader = true ∧ c.acct = true
+    · simp only [hla, and_self, if_true]
+      exact queue_follows_cycle s c hadd hdel hu hla.1 hla.2
+    · simp only [hla, if_false]
+      exact not_leader_or_account s c hla
+
+/-- the two counter-examples are gone in the repaired model: the in-place extension is enqueued
+(new item added, old item removed) and a full sync removes what vanished -/
+example :
+    let s1 := (cycle {} ⟨true, true, true, [], [⟨"s1", "", ["r1.x"]⟩]⟩).1
+    (cycle s1 ⟨false, true, true, [], [⟨"s1", "", ["r2.x"]⟩]⟩).2 =
+      [.add "s1" ⟨"", ["r1.x", "r2.x"]⟩, .remove "s1" ⟨"", ["r1.x"]⟩] ∧
+    (cycle s1 ⟨true, true, true, [], [⟨"s2", "", ["r2.x"]⟩]⟩).2 =
+      [.add "s2" ⟨"", ["r2.x"]⟩, .remove "s1" ⟨"", ["r1.x"]⟩] ∧
+    (cycle s1 ⟨true, true, true, [], [⟨"s1", "", ["r1.x"]⟩]⟩).2 = [.add "s1" ⟨"", ["r1.x"]⟩] ∧
+    (cycle s1 ⟨false, true, true, [], [⟨"s1", "", ["r1.x"]⟩]⟩).2 = [] := by decide +kernel
+
+end Fix
+
 /-! ## facts regenerated from the Go source on every run -/
 
 /-- the decision, the strict `Before`, the due date, the write guard, `VerifyHostname` per domain,
